@@ -290,6 +290,58 @@ example : WFMsg (mkMsg 0x10 [0xaa, 0xbb]) := mkMsg_wf _ _ (by decide)
 -- a zero-length handshake record is refused
 example : (getAll false 9 tlsDefrag [{ type := 22, data := [] }]).2.1 = some .unexpectedMessage := by decide
 
+/-! ### the alert peek after a failed handshake send (`_sendMsgThroughSocket`) -/
+
+/-- After `send()` failed during the handshake the library reads on to see whether the peer's
+    alert is in flight.  For EVERY schedule (any number of would-blocks before or inside the alert
+    record, any chunking, raw or buffered socket): only 0 is yielded while waiting; if the peek
+    ends with a verdict (TLSRemoteAlert(level, description) / re-raise the send error) it is the
+    verdict the pure function `alertPeekP` gives for the byte stream; and two runs over the same
+    stream under any two schedules that both end with a verdict end with the same one.  A
+    would-block alone therefore never turns "remote alert" into "socket error": the only other
+    endings are `pending` (still waiting) and the transport faults EOF / socket error. -/
+theorem alert_peek_schedule_independent {σ₁ σ₂ : Type} [Dev σ₁] [LawfulDev σ₁] [Dev σ₂] [LawfulDev σ₂]
+    (cfg : RSCfg) (tls13 : Bool) (fuel : Nat) (d : Defrag) (s₁ : σ₁) (s₂ : σ₂)
+    (h : upstream s₁ = upstream s₂) :
+    (∀ y ∈ (alertPeek cfg tls13 fuel d s₁).yields, y = 0) ∧
+    (alertPeek cfg tls13 fuel d s₁).res ≠ .fuelOut ∧
+    (∀ v, (alertPeek cfg tls13 fuel d s₁).res = .ok v →
+        alertPeekP cfg tls13 fuel d (upstream s₁) = .ok v (upstream (alertPeek cfg tls13 fuel d s₁).dev)) ∧
+    (∀ v w, (alertPeek cfg tls13 fuel d s₁).res = .ok v → (alertPeek cfg tls13 fuel d s₂).res = .ok w → v = w) ∧
+    (∀ v e, (alertPeek cfg tls13 fuel d s₁).res = .ok v → (alertPeek cfg tls13 fuel d s₂).res = .exc e →
+        e = .abruptClose ∨ e = .socketError) := by
+  have h1 := alertPeek_implements cfg tls13 fuel d s₁
+  have h2 := alertPeek_implements cfg tls13 fuel d s₂
+  refine ⟨h1.1, h1.2.1, h1.2.2.2.1, ?_, ?_⟩
+  · intro v w hv hw
+    have p1 := h1.2.2.2.1 v hv
+    have p2 := h2.2.2.2.1 w hw
+    rw [h, p2] at p1
+    simp at p1
+    exact p1.1.symm
+  · intro v e hv he
+    have p1 := h1.2.2.2.1 v hv
+    rcases h2.2.2.2.2 e he with p | p | p
+    · exact Or.inl p
+    · exact Or.inr p
+    · rw [h, p] at p1; simp at p1
+
+-- fatal handshake_failure `15 03 03 00 02 | 02 28`: all at once, would-block first, header / would-block / body,
+-- and through BufferedSocket: always TLSRemoteAlert(2, 40); a ServerHelloDone instead: the send error is re-raised
+example :
+    (alertPeek {} false 9 tlsDefrag (⟨[0x15, 3, 3, 0, 2, 2, 40], [.chunk 9, .chunk 9, .chunk 9], [], []⟩ : Sock)).res
+      = .ok (.remoteAlert 2 40) ∧
+    (alertPeek {} false 9 tlsDefrag (⟨[0x15, 3, 3, 0, 2, 2, 40], [.wb, .chunk 9, .chunk 9, .wb, .wb, .chunk 1, .chunk 1], [], []⟩ : Sock)).res
+      = .ok (.remoteAlert 2 40) ∧
+    (alertPeek {} false 9 tlsDefrag (⟨[0x15, 3, 3, 0, 2, 2, 40], [.wb, .chunk 9, .chunk 9, .wb, .wb, .chunk 1, .chunk 1], [], []⟩ : Sock)).yields
+      = [0, 0, 0] ∧
+    (alertPeek {} false 9 tlsDefrag ({ inner := ⟨[0x15, 3, 3, 0, 2, 2, 40], [.wb, .chunk 5, .wb, .chunk 2], [], []⟩ } : BSock)).res
+      = .ok (.remoteAlert 2 40) ∧
+    (alertPeek {} false 9 tlsDefrag (⟨[0x16, 3, 3, 0, 4, 14, 0, 0, 0], [.chunk 9, .wb, .chunk 9, .chunk 9], [], []⟩ : Sock)).res
+      = .ok .originalError ∧
+    (alertPeek {} false 9 tlsDefrag (⟨[0x15, 3, 3, 0, 2, 2, 40], [.chunk 9, .wb], [], []⟩ : Sock)).res = .pending := by
+  decide
+
 /-! ### yield protocol -/
 
 /-- Only 0 ("want read") is yielded while a record is read and only 1 ("want write") while a
